@@ -26,7 +26,7 @@ SPEC = {
     "thorough": {"shards": 16, "time_cap": 1500, "queries": 50000, "idents": 10000},
 }
 FEATS = dict(unqualified=0.75, stars="base-only", cte_cols=True, using=True, window=True, any_sub=False, star_dup_order=False,
-             setops_all=False, nulls_order=True, nested_with=True, deep_corr=0.3, natural_join=0.15, star_beside_using=0.5)
+             setops_all=False, nulls_order=True, nested_with=True, deep_corr=0.3, natural_join=0.15, star_beside_using=0.5, derived_setop=0.1)
 QDIALECTS = ["", "duckdb", "postgres", "snowflake", "mysql", "bigquery", "tsql", "spark", "sqlite", "oracle", "clickhouse", "trino"]
 
 with open(os.path.join(VERIF_DIR, "vf", "spec", "normalization.json")) as _f:
